@@ -8,7 +8,7 @@ from typing import Dict, List, Optional, Tuple
 
 from vlib import framework
 from vlib.framework import Harness
-from vlib.symx import assume, concrete, native
+from vlib.symx import assume, concrete, native, pick
 
 PID = "C14"
 
@@ -180,8 +180,7 @@ def _check(n: int, nk: int, code: int) -> bool:
 
 
 def h_fk_graph(n: int, nk: int, lo: int, hi: int, code: int) -> bool:
-    assume(lo <= code < hi)
-    c = concrete(code)
+    c = lo + pick(code, hi - lo)
     return native(_check, n, nk, c)
 
 
